@@ -251,9 +251,17 @@ pub fn run(ctx: &Ctx, with_reader_side: bool) -> Report {
                 let mut old_shp = Cursor::new(vec![0xEEu8; shp.len() + 640]);
                 let mut old_shx = Cursor::new(vec![0xEEu8; shx.len() + 96]);
                 let reused = panicmon::catch(|| -> Result<(), Error> {
+                    // exactly the call history of the reference file (writes, the finalize in the
+                    // middle if any, the ending): only the destination differs
                     let mut w = ShapeWriter::with_shx(&mut old_shp, &mut old_shx);
-                    for s in &shapes {
+                    for (k, s) in shapes.iter().enumerate() {
                         write_one(&mut w, s)?;
+                        if mid_finalize == Some(k + 1) {
+                            w.finalize()?;
+                        }
+                    }
+                    if finalize {
+                        w.finalize()?;
                     }
                     Ok(())
                 });
